@@ -143,6 +143,17 @@ pub fn run_case(rng: &mut Rng, focus: Focus, profile: &str) -> CaseOut {
 }
 
 pub fn eval_history(h: &History, focus: Focus, profile: &str, full: bool) -> CaseOut {
+    // analysis=1 lanes: the same histories, queries and oracle with the (min size, min depth) analysis of `c14s.rs` attached, whose
+    // modify hook inserts parents `w(class)`: extra terms do not change which inserted terms are equal (the closure is conservative),
+    // so both verdicts stay exact while make / merge / modify run inside every operation
+    if WITH_ANALYSIS.with(|s| s.get()) {
+        eval_history_n::<crate::props::c14s::ASym>(h, focus, profile, full)
+    } else {
+        eval_history_n::<()>(h, focus, profile, full)
+    }
+}
+
+pub fn eval_history_n<N: Analysis<LSym> + Default + 'static>(h: &History, focus: Focus, profile: &str, full: bool) -> CaseOut {
     let mut out = CaseOut::default();
     let lang = &LSYM;
     let cj = h.json(lang);
@@ -153,7 +164,7 @@ pub fn eval_history(h: &History, focus: Focus, profile: &str, full: bool) -> Cas
     // path compression, which can mask defects that need an untouched chain); everything is judged once at the end
     let sparse = SPARSE.with(|s| s.get());
     let mut cc = CC::new(pool);
-    let mut eg: EGraph<LSym> = EGraph::default();
+    let mut eg: EGraph<LSym, N> = EGraph::default();
     let mut ids: BTreeMap<usize, AppliedId> = BTreeMap::new();
     let mut added: Vec<usize> = vec![];
     let mut changed_unions = 0;
@@ -444,6 +455,7 @@ fn redecide_support(h: &History, upto: usize, t: &Tm, pool: u32) -> Option<BTree
 
 thread_local! {
     pub static SPARSE: std::cell::Cell<bool> = std::cell::Cell::new(false);
+    pub static WITH_ANALYSIS: std::cell::Cell<bool> = std::cell::Cell::new(false);
 }
 
 pub fn run(args: &Args, rep: &mut Rep, focus: Focus) {
@@ -452,8 +464,10 @@ pub fn run(args: &Args, rep: &mut Rep, focus: Focus) {
     }
     let profile = args.param_s("profile", "mix");
     let sparse = args.param_u("sparse", 0) == 1;
+    let with_analysis = args.param_u("analysis", 0) == 1;
     drive(args, rep, move |rng, _| {
         SPARSE.with(|s| s.set(sparse));
+        WITH_ANALYSIS.with(|s| s.set(with_analysis));
         let p = if profile == "mix" {
             match rng.below(10) {
                 0 => "small",
